@@ -42,6 +42,14 @@ class _D(Domain):
         # private helpers extracted from the analysed code are followed
         return walker.resolve_helper(st, call)
 
+    def decide(self, st, sym, node):
+        # the generator of a record popped from the wait heap is a generator
+        # object: never None
+        t = sym.text
+        if t.endswith('.generator is None') and 'heappop' in t:
+            return False
+        return fold_truth(sym.node)
+
 
 def _abs_eval(n, v):
     """Evaluate a guard over the abstract yielded value v in
@@ -263,6 +271,7 @@ def run(program, rep, tier, sleep_only=False):
                      'none is registered (e.g. when dt is 0): running '
                      'coroutines are not advanced in that frame')
         advs = 0
+        open_pop = None
         wake_seen = False
         empty_known = False
         rot_before = False
@@ -295,6 +304,14 @@ def run(program, rep, tier, sleep_only=False):
                              'heap is not known to be empty: outstanding '
                              'deadlines were computed on the old time base '
                              'and now wake late')
+            if e.kind == 'cond' and e.extra is False and open_pop is not None \
+                    and (e.sym.text in (WQ, f'len({WQ})', f'len({WQ}) > 0')
+                         or (f'.{OFN}' in e.sym.text and T in e.sym.text
+                             and WQ in e.sym.text)):
+                open_pop = None     # the scan ended on a head that is not due
+            if e.kind == 'cond' and e.extra is True and open_pop is not None \
+                    and e.sym.text == f'len({WQ}) == 0':
+                open_pop = None
             if e.kind == 'cond':
                 t = e.sym.text
                 n = e.sym.node
@@ -375,6 +392,17 @@ def run(program, rep, tier, sleep_only=False):
                 if not isinstance(cn, ast.Call):
                     continue
                 d = dotted(cn.func) or ''
+                if d == 'heapq.heappop' and cn.args and norm(
+                        cn.args[0]) == WQ:
+                    open_pop = e
+                if d in (f'{AQ}.rotate',) and open_pop is not None:
+                    flag('deadline', open_pop.node,
+                         'after this removal from the wait heap the wake '
+                         'phase ends without looking at the new head: when '
+                         'the removed coroutine is dropped (its kill was '
+                         'pending) the coroutines due behind it in the same '
+                         'frame stay asleep until the next process()')
+                    open_pop = None
                 if d == 'heapq.heappush' and cn.args and norm(
                         cn.args[0]) == WQ:
                     cnt['push'] += 1
